@@ -212,6 +212,161 @@ theorem size2_eq_zero (ivs : List (ℚ × ℚ)) : (decide (size2 ivs = 0)) = ivs
   unfold size2
   cases ivs <;> simp
 
+/-! ### `np.bincount` of the inverse indices = the class counts; masks -/
+
+theorem le_foldl_max (l : List Nat) (a : Nat) : a ≤ l.foldl max a := by
+  induction l generalizing a with
+  | nil => simp
+  | cons x l ih => exact le_trans (le_max_left a x) (ih (max a x))
+
+theorem mem_le_foldl_max {l : List Nat} {x : Nat} (hx : x ∈ l) (a : Nat) : x ≤ l.foldl max a := by
+  induction l generalizing a with
+  | nil => cases hx
+  | cons z l ih =>
+    rcases List.mem_cons.1 hx with h | h
+    · subst h; exact le_trans (le_max_right a x) (le_foldl_max l (max a x))
+    · exact ih h (max a z)
+
+theorem foldl_max_lt {l : List Nat} {a k : Nat} (ha : a < k) (hl : ∀ x ∈ l, x < k) : l.foldl max a < k := by
+  induction l generalizing a with
+  | nil => simpa using ha
+  | cons z l ih =>
+    exact ih (max_lt ha (hl z (by simp))) (fun x hx => hl x (by simp [hx]))
+
+theorem count_map_idxOf (y : List Nat) (i : Nat) (hi : i < (classes y).length) :
+    (y.map fun v => (classes y).idxOf v).count i = y.count (classes y)[i] := by
+  rw [List.count_eq_countP, List.count_eq_countP, List.countP_map]
+  apply List.countP_congr
+  intro x hx
+  simp only [Function.comp, beq_iff_eq]
+  exact idxOf_eq_iff (nodup_classes y) (mem_classes.2 hx) hi
+
+theorem foldl_max_map_idxOf {y : List Nat} (hy : y ≠ []) :
+    (y.map fun v => (classes y).idxOf v).foldl max 0 + 1 = (classes y).length := by
+  have hpos : 0 < (classes y).length := classes_length_pos (List.length_pos_iff.2 hy)
+  have hlt : (y.map fun v => (classes y).idxOf v).foldl max 0 < (classes y).length := by
+    apply foldl_max_lt hpos
+    intro x hx
+    obtain ⟨v, hv, rfl⟩ := List.mem_map.1 hx
+    exact List.idxOf_lt_length_of_mem (mem_classes.2 hv)
+  have hge : (classes y).length - 1 ≤ (y.map fun v => (classes y).idxOf v).foldl max 0 := by
+    apply mem_le_foldl_max
+    have hk : (classes y).length - 1 < (classes y).length := by omega
+    refine List.mem_map.2 ⟨(classes y)[(classes y).length - 1], mem_classes.1 (List.getElem_mem hk), ?_⟩
+    exact List.Nodup.idxOf_getElem (nodup_classes y) _ hk
+  omega
+
+/-- `np.bincount(np.unique(y, return_inverse=True)[1])` is the list of class sizes, in class order -/
+theorem bincount_inverse {y : List Nat} (hy : y ≠ []) :
+    bincount (y.map fun v => (classes y).idxOf v) = (classes y).map fun c => y.count c := by
+  unfold bincount
+  rw [if_neg (by simpa using hy), foldl_max_map_idxOf hy]
+  exact map_range_eq_map (classes y) _ _ (fun i hi => count_map_idxOf y i hi)
+
+/-- `pi[pi > 0]` keeps everything when all entries are positive -/
+theorem selectVec_pos (xs : List Nat) (h : ∀ x ∈ xs, 0 < x) :
+    selectVec xs (xs.map fun v => decide (v > 0)) = xs := by
+  unfold selectVec
+  induction xs with
+  | nil => rfl
+  | cons a xs ih =>
+    have ha : 0 < a := h a (by simp)
+    simp only [List.map_cons, List.zip_cons_cons, List.filterMap_cons, gt_iff_lt, ha, decide_true, if_true]
+    rw [ih (fun x hx => h x (by simp [hx]))]
+
+/-! ### `_mutual_info_score`: the masked arrays `contingency[nnz]`, `outer[nnz]` against the hand model's double loop -/
+
+/-- the non-zero cells of a table with their row and column marginals, in row-major order -/
+def nzCells (c : List (List Nat)) (a b : List Nat) : List (Nat × Nat × Nat) :=
+  (c.zip a).flatMap fun p => (p.1.zip b).filterMap fun q => if q.1 = 0 then none else some (q.1, p.2, q.2)
+
+theorem selectVec_row_fst (r b : List Nat) (ai : Nat) (h : r.length = b.length) :
+    selectVec r (r.map fun v => decide (v ≠ 0)) =
+      ((r.zip b).filterMap fun q => if q.1 = 0 then none else some (q.1, ai, q.2)).map fun t => t.1 := by
+  unfold selectVec
+  induction r generalizing b with
+  | nil => simp
+  | cons x r ih =>
+    cases b with
+    | nil => simp at h
+    | cons y b =>
+      have h' : r.length = b.length := by simpa using h
+      simp only [List.map_cons, List.zip_cons_cons, List.filterMap_cons]
+      rw [ih b h']
+      by_cases hx : x = 0 <;> simp [hx]
+
+theorem selectVec_row_snd {β : Type} (g : Nat → Nat → β) (r b : List Nat) (ai : Nat) (h : r.length = b.length) :
+    selectVec (b.map fun bj => g ai bj) (r.map fun v => decide (v ≠ 0)) =
+      ((r.zip b).filterMap fun q => if q.1 = 0 then none else some (q.1, ai, q.2)).map fun t => g t.2.1 t.2.2 := by
+  unfold selectVec
+  induction r generalizing b with
+  | nil => simp
+  | cons x r ih =>
+    cases b with
+    | nil => simp at h
+    | cons y b =>
+      have h' : r.length = b.length := by simpa using h
+      simp only [List.map_cons, List.zip_cons_cons, List.filterMap_cons]
+      rw [ih b h']
+      by_cases hx : x = 0 <;> simp [hx]
+
+/-- `contingency[nnz]` -/
+theorem selectMat_nz_fst (nr nc : Nat) (c : List (List Nat)) (a b : List Nat) (ha : c.length = a.length)
+    (hb : ∀ r ∈ c, r.length = b.length) :
+    selectMat ⟨nr, nc, c⟩ (c.map fun r => r.map fun v => decide (v ≠ 0)) = (nzCells c a b).map fun t => t.1 := by
+  unfold selectMat nzCells
+  simp only
+  induction c generalizing a with
+  | nil => simp
+  | cons r c ih =>
+    cases a with
+    | nil => simp at ha
+    | cons ai a =>
+      have ha' : c.length = a.length := by simpa using ha
+      simp only [List.map_cons, List.zip_cons_cons, List.flatMap_cons, List.map_append]
+      rw [ih a ha' (fun r hr => hb r (by simp [hr])), selectVec_row_fst r b ai (hb r (by simp))]
+
+/-- `outer[nnz]` for a matrix whose (i, j) entry is a function of the two marginals -/
+theorem selectMat_nz_snd {β : Type} (g : Nat → Nat → β) (nr nc : Nat) (c : List (List Nat)) (a b : List Nat)
+    (ha : c.length = a.length) (hb : ∀ r ∈ c, r.length = b.length) :
+    selectMat ⟨nr, nc, a.map fun ai => b.map fun bj => g ai bj⟩ (c.map fun r => r.map fun v => decide (v ≠ 0)) =
+      (nzCells c a b).map fun t => g t.2.1 t.2.2 := by
+  unfold selectMat nzCells
+  simp only
+  induction c generalizing a with
+  | nil => simp
+  | cons r c ih =>
+    cases a with
+    | nil => simp at ha
+    | cons ai a =>
+      have ha' : c.length = a.length := by simpa using ha
+      simp only [List.map_cons, List.zip_cons_cons, List.flatMap_cons, List.map_append]
+      rw [ih a ha' (fun r hr => hb r (by simp [hr])), selectVec_row_snd g r b ai (hb r (by simp))]
+
+/-- the hand model's double loop over the table is a sum over `nzCells` -/
+theorem mutualInfoSum_eq_nzCells {α : Type} [Transc α] (c : List (List Nat)) (a b : List Nat) :
+    mutualInfoSum (α := α) c a b =
+      tsum ((nzCells c a b).map fun t =>
+        miTerm (Transc.ofNat (c.map List.sum).sum) (Transc.ofNat a.sum) (Transc.ofNat b.sum) t.1 t.2.1 t.2.2) := by
+  unfold mutualInfoSum nzCells
+  simp only [List.map_flatMap, List.map_filterMap]
+  congr 1
+  apply List.flatMap_congr
+  intro p _
+  apply List.filterMap_congr
+  intro q _
+  by_cases hq : q.1 = 0 <;> simp [hq]
+
+theorem length_sumAxis0 (M : Mat Nat) (hwf : ∀ r ∈ M.rows, r.length = M.ncols) : (sumAxis0 M).length = M.ncols := by
+  obtain ⟨nr, nc, rows⟩ := M
+  unfold sumAxis0
+  simp only at hwf ⊢
+  induction rows with
+  | nil => simp
+  | cons r rows ih =>
+    simp only [List.foldr_cons, List.length_zipWith, ih (fun r hr => hwf r (by simp [hr])), hwf r (by simp)]
+    simp
+
 /-! ### shapes of the generated `do` blocks (used by `Props/C16_GenIndex.lean`; the rational sub-terms are left as
     side goals so that any ring-equivalent spelling in the source closes them) -/
 
@@ -239,5 +394,11 @@ theorem pairs_shape {m e r m' e' r' : ℚ} (beta : ℚ) (h1 : m = m') (h2 : e = 
 theorem rand_shape {a b a' b' : ℚ} (h1 : a = a') (h2 : b = b') :
     (pure (npDiv a b) : Py Segment.Num) = .ok (npDiv a' b') := by
   subst h1 h2; rfl
+
+theorem checkLen_pure {yr ye : List Nat} (h : yr.length = ye.length) {β : Type} (x : β) :
+    (do checkLen yr ye; pure x : Py β) = .ok x := by
+  unfold checkLen
+  simp only [if_neg (not_not.2 h), ok_bind]
+  rfl
 
 end Mir.PyM
